@@ -127,9 +127,9 @@ type c15World struct {
 	carriers  map[string]map[string]bool // svc|value -> keys that ever carried it
 
 	ops    []c15Op
-	failed bool // a violation was recorded: stop the scenario
-	incon  bool // a watchdog fired: stop the test
-	wedged bool // the cluster is deadlocked: it cannot be disposed
+	failed bool   // a violation was recorded: stop the scenario
+	incon  bool   // a watchdog fired: stop the test
+	wedged bool   // the cluster is deadlocked: it cannot be disposed
 	tag    string // once set (gated schedule families): the phase reported by every later check
 
 	trig     *internal.C15Trigger
@@ -445,6 +445,7 @@ func (w *c15World) attach(svcIdx int, excl bool) {
 		w.delivered = w.etcd.logLen()
 	}
 	first := len(w.subs) == 0
+	keyWatched := len(w.subsOf(svc)) > 0
 	nb := w.etcd.watchCount()
 	var opts []discov.SubOption
 	if excl {
@@ -497,15 +498,23 @@ func (w *c15World) attach(svcIdx int, excl bool) {
 	}
 	w.known[svc] = nk
 	w.subs = append(w.subs, s)
-	phase := "late-join"
-	if first {
-		phase = "first-load"
-	}
-	if !w.checkSub(s, immediate, phase) {
+	// "immediately" is asserted where the statement promises it: the key is already being
+	// watched for another subscriber. The first subscriber of a key is checked at the
+	// next quiescent point.
+	if keyWatched && !w.checkSub(s, immediate, "late-join") {
 		return
 	}
 	if !w.pump(w.delivered, 1) {
 		return
+	}
+	if !keyWatched {
+		phase := "first-load"
+		if !first {
+			phase = "first-load-of-key"
+		}
+		if !w.checkSub(s, s.sub.Values(), phase) {
+			return
+		}
 	}
 	w.check("after-attach")
 }
